@@ -141,10 +141,11 @@ func (p *jsonPathParser) _unescapeJSONString(input []byte) (string, error) {
 }
 
 func (p *jsonPathParser) syntaxErr(pos int, reason string, buffer string) error {
+	// pos counts characters (the PEG parser works on runes), not bytes.
 	return ErrorInvalidSyntax{
 		position: pos,
 		reason:   reason,
-		near:     buffer[pos:],
+		near:     string([]rune(buffer)[pos:]),
 	}
 }
 
